@@ -204,6 +204,11 @@ VSread(int32 vkey,  /* IN: vdata key */
     if (vs->wlist.n <= 0)
         HGOTO_ERROR(DFE_BADFIELDS, FAIL);
 
+    /* nor reads for which no fields have been selected: with several fields
+       nothing would be copied and the call would still report success */
+    if (vs->wlist.n > 1 && vs->rlist.n <= 0)
+        HGOTO_ERROR(DFE_BADFIELDS, FAIL);
+
     /* check if vdata exists in file */
     if (vexistvs(vs->f, vs->oref) == FAIL)
         HGOTO_ERROR(DFE_NOVS, FAIL);
